@@ -414,6 +414,10 @@ fn search(a: &Args, tracer: &Tracer) {
     let nseg = a.num("segments", rng.random_range(1..=6)) as usize;
     let mut cuts: Vec<usize> = (0..nseg - 1).map(|_| rng.random_range(1..ndocs)).collect();
     cuts.sort();
+    if let Some(c) = a.kv.get("cuts") {
+        // explicit segment boundaries (document counts), for hand-made segmentations
+        cuts = c.split(',').map(|x| x.trim().parse().expect("--cuts")).collect();
+    }
     let deleted: Vec<u64> = (0..ndocs / 20).map(|_| rng.random_range(0..ndocs as u64)).collect();
     let index: Index = qlib::build_index(&schema, &docs, &cuts, &deleted, false).expect("index");
     let s1 = index.reader().unwrap().searcher();
@@ -428,6 +432,7 @@ fn search(a: &Args, tracer: &Tracer) {
         None => vec![],
     };
     let nq = if fixed.is_empty() { nq } else { fixed.len() };
+    let mut ms_cache: std::collections::HashMap<(String, String), bool> = std::collections::HashMap::new();
     for qi in 0..nq {
         let wand = a.flag("wand");
         let qj = if !fixed.is_empty() { fixed[qi]["q"].clone() } else if wand { gen_wand_query(&mut rng) } else { gen_scoring_query(&mut rng) };
@@ -488,8 +493,11 @@ fn search(a: &Args, tracer: &Tracer) {
                 }
                 obs.push(o);
             }
+            // advisory fact for the classification of a rejection (never used to judge): the text terms of the query for which
+            // some document's real term score exceeds Bm25Weight::max_score() of this searcher
+            let exceeded: Vec<String> = if float_key { maxscore_exceeded(&s1, &schema, &qj, &mut ms_cache) } else { vec![] };
             Ok(json!({"ev":"topk","qi":qi,"q":qj,"n":n,"key":key,"kind": if float_key {"score"} else {"exact"},"cmp":cmp,
-                      "all":all,"sorted":sorted,"obs":obs}))
+                      "all":all,"sorted":sorted,"obs":obs,"maxscore_exceeded":exceeded}))
         }));
         match res {
             Ok(Ok(ev)) => {
@@ -504,6 +512,65 @@ fn search(a: &Args, tracer: &Tracer) {
             }
         }
     }
+}
+
+fn term_leaves(q: &Value, out: &mut Vec<(String, String)>) {
+    match q {
+        Value::Object(m) => {
+            if m.get("k").and_then(|x| x.as_str()) == Some("term") {
+                if let (Some(f), Some(t)) = (m.get("f").and_then(|x| x.as_str()), m.get("t").and_then(|x| x.as_str())) {
+                    out.push((f.to_string(), t.to_string()));
+                }
+            }
+            for v in m.values() {
+                term_leaves(v, out);
+            }
+        }
+        Value::Array(a) => a.iter().for_each(|v| term_leaves(v, out)),
+        _ => {}
+    }
+}
+
+fn maxscore_exceeded(s: &Searcher, schema: &tantivy::schema::Schema, q: &Value, cache: &mut std::collections::HashMap<(String, String), bool>) -> Vec<String> {
+    use tantivy::query::{Bm25Weight, EnableScoring, TermQuery};
+    use tantivy::schema::IndexRecordOption;
+    use tantivy::{DocSet, Term, TERMINATED};
+    let mut leaves = vec![];
+    term_leaves(q, &mut leaves);
+    leaves.sort();
+    leaves.dedup();
+    let mut out = vec![];
+    for (f, t) in leaves {
+        if !["title", "body"].contains(&f.as_str()) {
+            continue;
+        }
+        let key = (f.clone(), t.clone());
+        if !cache.contains_key(&key) {
+            let field = schema.get_field(&f).unwrap();
+            let term = Term::from_field_text(field, &t);
+            let exceeded = (|| -> tantivy::Result<bool> {
+                let bound = Bm25Weight::for_terms(s, &[term.clone()])?.max_score();
+                let w = TermQuery::new(term.clone(), IndexRecordOption::WithFreqs).weight(EnableScoring::enabled_from_searcher(s))?;
+                for sr in s.segment_readers() {
+                    let mut sc = w.scorer(sr, 1.0)?;
+                    let mut d = sc.doc();
+                    while d != TERMINATED {
+                        if sc.score() > bound {
+                            return Ok(true);
+                        }
+                        d = sc.advance();
+                    }
+                }
+                Ok(false)
+            })()
+            .unwrap_or(false);
+            cache.insert(key.clone(), exceeded);
+        }
+        if cache[&key] {
+            out.push(format!("{f}:{t}"));
+        }
+    }
+    out
 }
 
 /// For every frequent body word: Bm25Weight::max_score() of the searcher against the best score a document really gets
